@@ -10,7 +10,7 @@ CONSTANTS
   EofFastPath = FALSE
   Strict = FALSE
 SPECIFICATION TSpec
-INVARIANTS C13_Frames C13_Prefix C13_TerminalLast C13_NoPanic
+INVARIANTS C13_Frames C13_Prefix C13_ErrAfterFrames C13_TerminalLast C13_NoPanic
 PROPERTIES C13_IoErrSurfaced
 POSTCONDITION TraceAccepted
 CHECK_DEADLOCK FALSE
